@@ -296,8 +296,18 @@ def r7(ctx, rep):
     # fold_function / materialize_function: NS_PARAM frames are popped on every non-error exit after the push
     for name, allowed_exit in (("Resolver::fold_function", "Ok(*expr_of_func(func, span))"), ("Resolver::materialize_function", None)):
         f = syn.fn(name, crate="prqlc")
+
+        def push_at(g_):
+            return [j for j, st in enumerate(g_["body"]["s"]) if any(x.get("k") == "mcall" and x["m"] == "stack_push" and "NS_PARAM" in show(x, maxdepth=6) for x in walk_no_closure(st))]
+        if not push_at(f):
+            # the frame is pushed and popped in a private method of the same file that this one hands its work to (a wrapper around the body)
+            for h in syn.fns:
+                if h["crate"] == f["crate"] and h["file"] == f["file"] and "body" in h and h is not f and h["body"].get("k") == "block" and push_at(h) and \
+                        any(c.get("k") == "mcall" and c["m"] == h["name"] and show(c["r"]) == "self" for c in walk(f["body"])):
+                    f = h
+                    break
         stmts = f["body"]["s"]
-        pi = [j for j, st in enumerate(stmts) if any(x.get("k") == "mcall" and x["m"] == "stack_push" and "NS_PARAM" in show(x, maxdepth=6) for x in walk_no_closure(st))]
+        pi = push_at(f)
         if not pi:
             rep.bad(f"scope:{f['name']}", "no stack_push(NS_PARAM, ..) found", file=f["file"], line=f["l"], fn=f["path"])
             continue
